@@ -140,6 +140,8 @@ PROPS = {
         "coverage_extra": {"quick": {"exhaustive": False}, "thorough": {"exhaustive": False}},
         "legs": [
             native("c13_slots", ["secs=8", "depth=7"], ["secs=100", "depth=8"]),
+            # the same monitor on a build without debug assertions (what ships): code inside debug_assert! is gone there
+            native("c13_slots", ["secs=4", "depth=6"], ["secs=30", "depth=7"], name="native-release", flavour="release"),
             miri("c13_slots", 16, 64, [0, 1], [0, 1, 2, 3]),
             native("c13_slots", t=["secs=40", "depth=5", "lanes=3"], name="tsan", flavour="tsan", tiers=("thorough",)),
         ],
